@@ -268,7 +268,7 @@ func solveOne(o *Obligation, dir string, timeoutS int, agree bool, seed int) {
 	if o.ShortTimeout && timeoutS > 4 {
 		timeoutS = 4
 	}
-	if qfScript != "" && !strings.Contains(qfScript, "(forall ") {
+	if qfScript != "" && qfScript != script {
 		// first attempt: hypotheses instantiated by the engine, no quantifier left for the solver
 		qt := timeoutS
 		if qt > 6 {
